@@ -1351,4 +1351,182 @@ theorem nextScan_spec (cur seek : Int) (toks : List Tok) :
       obtain ⟨a, b', c', d⟩ := ih
       exact ⟨a, by simp only [List.length_cons]; omega, fun h => by have := c' h; simp only [List.length_cons]; omega, d⟩
 
+/-! ## namespaceStrictToTransitional scanner -/
+
+
+theorem byteAtI_some (rest : List Char) (k : Int) (h0 : 0 ≤ k) (h1 : k < (rest.length : Int)) :
+    ∃ c, byteAtI rest k = some c := by
+  unfold byteAtI
+  rw [if_pos ⟨h0, h1⟩]
+  have : k.toNat < rest.length := by omega
+  exact ⟨rest[k.toNat], List.getElem?_eq_getElem this⟩
+
+theorem nsNameEnd_ok (rest : List Char) : ∀ (fuel : Nat) (e : Int), 0 ≤ e → e ≤ (rest.length : Int) →
+    ∃ e', nsNameEnd rest fuel e = .ok e' ∧ 0 ≤ e' ∧ e' ≤ e := by
+  intro fuel
+  induction fuel with
+  | zero => intro e h0 _; exact ⟨e, rfl, h0, Int.le_refl _⟩
+  | succ f ih =>
+    intro e h0 h1
+    unfold nsNameEnd
+    split
+    · obtain ⟨c, hc⟩ := byteAtI_some rest (e - 1) (by omega) (by omega)
+      rw [hc]
+      simp only
+      split
+      · obtain ⟨e', a, b, d⟩ := ih (e - 1) (by omega) (by omega)
+        exact ⟨e', a, b, by omega⟩
+      · exact ⟨e, rfl, h0, Int.le_refl _⟩
+    · exact ⟨e, rfl, h0, Int.le_refl _⟩
+
+theorem nsNameStart_ok (rest : List Char) : ∀ (fuel : Nat) (e : Int), 0 ≤ e → e ≤ (rest.length : Int) →
+    ∃ e', nsNameStart rest fuel e = .ok e' ∧ 0 ≤ e' ∧ e' ≤ e := by
+  intro fuel
+  induction fuel with
+  | zero => intro e h0 _; exact ⟨e, rfl, h0, Int.le_refl _⟩
+  | succ f ih =>
+    intro e h0 h1
+    unfold nsNameStart
+    split
+    · obtain ⟨c, hc⟩ := byteAtI_some rest (e - 1) (by omega) (by omega)
+      rw [hc]
+      simp only
+      split
+      · obtain ⟨e', a, b, d⟩ := ih (e - 1) (by omega) (by omega)
+        exact ⟨e', a, b, by omega⟩
+      · exact ⟨e, rfl, h0, Int.le_refl _⟩
+    · exact ⟨e, rfl, h0, Int.le_refl _⟩
+
+theorem idxOfB_lt (c : Char) (l : List Char) : ∀ k, idxOfB c l = some k → k < l.length := by
+  induction l with
+  | nil => intro k h; simp [idxOfB] at h
+  | cons x xs ih =>
+    intro k h
+    unfold idxOfB at h
+    split at h
+    · simp only [Option.some.injEq] at h; subst h; simp
+    · cases hx : idxOfB c xs with
+      | none => simp [hx] at h
+      | some m =>
+        simp only [hx, Option.map_some, Option.some.injEq] at h
+        subst h
+        have := ih m hx
+        simp only [List.length_cons]; omega
+
+theorem idxOfSub_le (pat : List Char) (l : List Char) : ∀ (k0 k : Nat), idxOfSub pat k0 l = some k →
+    k0 ≤ k ∧ k - k0 + pat.length ≤ l.length := by
+  induction l with
+  | nil => intro k0 k h; simp [idxOfSub] at h
+  | cons x xs ih =>
+    intro k0 k h
+    unfold idxOfSub at h
+    split at h
+    · rename_i hm
+      simp only [Option.some.injEq] at h; subst h
+      have heq : (x :: xs).take pat.length = pat := by simpa using hm
+      have hl : ((x :: xs).take pat.length).length = pat.length := by rw [heq]
+      rw [List.length_take] at hl
+      refine ⟨Nat.le_refl _, ?_⟩
+      omega
+    · have := ih (k0 + 1) k h
+      simp only [List.length_cons]; omega
+
+theorem nsTag_no_panic : ∀ (fuel : Nat) (rest : List Char) (j : Nat) (acc : List NsPiece),
+    (nsTag fuel rest j acc).isPanic = false := by
+  intro fuel
+  induction fuel with
+  | zero => intro rest j acc; rfl
+  | succ f ih =>
+    intro rest j acc
+    unfold nsTag
+    split
+    · rename_i hj
+      obtain ⟨c, hc⟩ := byteAtI_some rest (j : Int) (by omega) (by omega)
+      rw [hc]
+      simp only
+      split
+      · have : sliceOK rest.length 0 (j + 1) = true := by simp [sliceOK]; omega
+        rw [this]; rfl
+      · split
+        · exact ih _ _ _
+        · obtain ⟨ne, h1, h2, h3⟩ := nsNameEnd_ok rest (j + 1) (j : Int) (by omega) (by omega)
+          rw [h1]; simp only [Outcome.bind]
+          obtain ⟨ns, g1, g2, g3⟩ := nsNameStart_ok rest (j + 1) ne h2 (by omega)
+          rw [g1]; simp only [Outcome.bind]
+          rw [if_neg (by omega)]
+          have hs : sliceOK rest.length (j + 1) rest.length = true := by simp [sliceOK]; omega
+          rw [hs]
+          simp only [not_true_eq_false, if_false]
+          split
+          · rfl
+          · rename_i closing hcl
+            have hlt := idxOfB_lt c (rest.drop (j + 1)) closing hcl
+            simp only [List.length_drop] at hlt
+            split
+            · have a : sliceOK rest.length 0 (j + 1) = true := by simp [sliceOK]; omega
+              have b : sliceOK rest.length (j + 1) (j + 1 + closing) = true := by simp [sliceOK]; omega
+              rw [a, b]
+              simp only [and_self, not_true_eq_false, if_false]
+              exact ih _ _ _
+            · exact ih _ _ _
+    · rfl
+
+theorem map_add_some {o : Option Nat} {n e : Nat} (h : o.map (· + n) = some e) : ∃ k, o = some k ∧ e = k + n := by
+  cases o with
+  | none => simp at h
+  | some k => simp only [Option.map_some, Option.some.injEq] at h; exact ⟨k, rfl, h.symm⟩
+
+theorem nsScan_no_panic : ∀ (fuel : Nat) (content : List Char) (acc : List NsPiece),
+    (nsScan fuel content acc).isPanic = false := by
+  intro fuel
+  induction fuel with
+  | zero => intro c a; rfl
+  | succ f ih =>
+    intro content acc
+    unfold nsScan
+    split
+    · rfl
+    · rename_i lt hlt
+      have hl := idxOfB_lt '<' content lt hlt
+      have : sliceOK content.length 0 lt = true := by simp [sliceOK]; omega
+      rw [this]
+      simp only [not_true_eq_false, if_false]
+      split
+      · rfl
+      · rename_i e hsk
+        have he : e ≤ (content.drop lt).length := by
+          split at hsk
+          · simp only [Option.some.injEq] at hsk
+            obtain ⟨k, hk, rfl⟩ := map_add_some hsk
+            have := idxOfSub_le _ _ 0 k hk
+            simp at this; simp only [List.length_drop]; omega
+          · split at hsk
+            · simp only [Option.some.injEq] at hsk
+              obtain ⟨k, hk, rfl⟩ := map_add_some hsk
+              have := idxOfSub_le _ _ 0 k hk
+              simp at this; simp only [List.length_drop]; omega
+            · split at hsk
+              · simp only [Option.some.injEq] at hsk
+                obtain ⟨k, hk, rfl⟩ := map_add_some hsk
+                have := idxOfSub_le _ _ 0 k hk
+                simp at this; simp only [List.length_drop]; omega
+              · split at hsk
+                · simp only [Option.some.injEq] at hsk
+                  obtain ⟨k, hk, rfl⟩ := map_add_some hsk
+                  have := idxOfB_lt _ _ k hk
+                  omega
+                · cases hsk
+        have hs : sliceOK (content.drop lt).length 0 e = true := by simp [sliceOK]; simpa using he
+        rw [hs]
+        simp only [not_true_eq_false, if_false]
+        exact ih _ _
+      · apply bind_no_panic _ _ (nsTag_no_panic _ _ _ _)
+        intro p _
+        obtain ⟨a2, left⟩ := p
+        simp only
+        split
+        · rfl
+        · exact ih _ _
+
+
 end XlModel.Decode
